@@ -11,7 +11,7 @@ Import ListNotations.
 Local Open Scope N_scope.
 
 (* the translated functions of the chunk-size line that rx_chunk::parse calls *)
-Record size_line_code := mk_slc { kc_pc : stmt; kc_parse : lstmt; kc_valid : bexp; kc_size : nexp; kc_is_last : bexp; kc_clear : stmt }.
+Record size_line_code := mk_slc { kc_pc : stmt; kc_parse : lstmt; kc_valid : bexp; kc_size : nexp; kc_is_last : bexp; kc_clear : stmt; kc_fail : bexp }.
 
 Record cstore := mk_cs { cs_hdr : store; cs_data : str; cs_trailers : hstore; cs_nums : list N }.   (* valid_, cr_, fail_ *)
 Record cstate := mk_cst { c_store : cstore; c_in : str; c_req : Z; c_rx : Z; c_next : str }.
@@ -29,6 +29,7 @@ Inductive cexp :=
   | CNot (a : cexp) | CAnd (a b : cexp) | COr (a b : cexp)
   | CHdrValid | CHdrParse | CHdrIsLast       (* ChunkHeader::valid(), ::parse(iter, end), ::is_last() *)
   | CTrailersParse                           (* trailers_.parse(iter, end) *)
+  | CHdrFail | CTrailersFail                 (* ChunkHeader::fail(), trailers_.fail() *)
   | CAtEnd                                   (* iter == end *)
   | CPeekIs (ch : N)                         (* 'x' == *iter *)
   | CZGt (a b : czexp)
@@ -103,6 +104,12 @@ Section Chunk.
         | Some (v, t1, rest) =>
             let st := c_store s in
             Some (v, mk_cst (mk_cs (cs_hdr st) (cs_data st) t1 (cs_nums st)) rest (c_req s) (c_rx s) (c_next s))
+        | None => None
+        end
+    | CHdrFail => Some (fst (beval klim 0 (kc_fail kc) (cs_hdr (c_store s))), s)
+    | CTrailersFail =>
+        match heval flim hlim (hc_field hc) fuel (hc_fail hc) (mk_hst (cs_trailers (c_store s)) (c_in s)) with
+        | Some (v, _) => Some (v, s)
         | None => None
         end
     | CAtEnd => Some (match c_in s with [] => true | _ => false end, s)
